@@ -1,6 +1,6 @@
 #!/bin/bash
 export VERIF_WORKERS=${VERIF_WORKERS:-12}
-for id in C17 C07 C12 C06 C05 C03 C01 C02; do
+for id in ${IDS:-C06 C05 C03 C01 C02}; do
   s=$(date +%s); ./check $id thorough > thorough_$id.log 2>&1; rc=$?
   echo "$id rc=$rc $(( $(date +%s) - s ))s $(tail -n 1 thorough_$id.log | cut -c1-220)"
   grep -E "KNOWN-FINDING|VIOLATION|HARNESS" thorough_$id.log | cut -c1-300 | head -5
